@@ -244,9 +244,11 @@ def start (d : Data) (edge : Name) (ps : Params) : List VertexId :=
   | some e => e.nbrs
   | none => []
 
+/-- all supertypes of `t`, itself included (the `(sub (<Type> <Super>…)…)` table lists the proper
+supertypes after the type itself) -/
 def supers (d : Data) (t : Name) : List Name :=
   match d.sub.find? (·.1 == t) with
-  | some (_, l) => l
+  | some (_, l) => t :: l
   | none => [t]
 
 /-- `resolve_coercion` for an existing vertex. -/
